@@ -20,7 +20,7 @@ ASSUMPTIONS = [
     "object identity is modelled by store ids",
 ]
 
-KIND_OPS = ["const", "add", "alias", "lowest", "draw", "accumulate", "pool", "pool_index", "pool_slice", "matmul_p",
+KIND_OPS = ["const", "query", "add", "alias", "lowest", "draw", "accumulate", "pool", "pool_index", "pool_slice", "matmul_p",
             "flatten", "roller", "annotate", "setitem", "delitem", "rejected", "query", "query", "query"]
 
 
@@ -44,7 +44,7 @@ def gen_cases(rng, tier):
                 ops.append(["roller", r[:rng.randint(1, 2)], rng.randint(0, 5)])
             elif k == "query":
                 ops.append(["query", rng.choice(["h_which", "rwc", "order", "eq", "hash", "foreach", "explode", "substitute",
-                                                 "roll", "rroll", "scalar", "cmp", "zero_fill", "stats", "format"]), r[0], r[1]])
+                                                 "roll", "rroll", "scalar", "cmp", "zero_fill", "zero_fill", "stats", "format", "annotate_eq"]), r[0], r[1]])
             else:
                 ops.append([k] + r[:3])
         cases.append({"kind": "ops", "ops": ops})
@@ -216,7 +216,15 @@ def impl_run(case):
                 elif q == "cmp":
                     h.lt(2), h.eq(h), h.within(-1, 1, h), h.is_even() if all(Fraction(o).denominator == 1 for o in h) else None
                 elif q == "zero_fill":
-                    h.zero_fill([99, -99]), h.remove(next(iter(h), 0)), h.umap(lambda o: o)
+                    # fills above the largest outcome, below the smallest, between, and mixed
+                    h.zero_fill([99, 100]), h.zero_fill([-99]), h.zero_fill([99, -99]), h.zero_fill([Fraction(1, 2)])
+                    h.zero_fill(list(h)), h.remove(next(iter(h), 0)), h.umap(lambda o: o), h.accumulate(h), h.accumulate(H(h))
+                elif q == "annotate_eq":
+                    # re-annotating with an equal-but-distinguishable value must not touch the original
+                    if ri is not None:
+                        r0 = pop[ri][1]
+                        a0 = r0.annotation
+                        r0.annotate(a0), r0.annotate(float(a0) if isinstance(a0, int) else a0), r0.annotate(bool(a0) if a0 in (0, 1) else a0)
                 elif q == "stats":
                     h.mean(), h.variance(), list(h.distribution())
                 elif q == "format":
